@@ -1,3 +1,3 @@
 import Votca.Base.Util
-import Votca.Model.C18
-import Votca.Lemmas.C18Wild
+import Votca.Props.C18
+import Votca.Props.C13
